@@ -196,7 +196,7 @@ func cmdRun(args []string) int {
 			"path_bound_per_harness":        ec.MaxPaths,
 			"ssa_step_bound_per_path":       ec.Opt.MaxSteps,
 			"solver_timeout_ms":             ec.TimeoutMs,
-			"sizes":                         "stated in each harness header comment and DESIGN.md §3/§4 (vfRange / vfChoose bounds, scaled by the tier)",
+			"sizes":                         "stated in each harness header comment and DESIGN.md §3/§4 (vfRange / vfChoose bounds, scaled by the tier); *AtScale / SlowReplies harnesses add sizes and latencies just beyond every integer (4..1024) / time.Duration (1 ms..10 s) constant that the functions under test compare with or mention in the CURRENT source (DESIGN.md §2.13)",
 			"cvc5_cross_check_pct_of_unsat": ec.Opt.CrossPct,
 		}
 		sums, st := gosym.Explore(p, entries, ec)
@@ -476,6 +476,13 @@ func (e *evidence) addHarness(s *gosym.HarnessSummary) {
 	h := map[string]interface{}{"harness": s.Name, "paths": s.Paths, "status": s.ByStatus, "obligations_discharged": s.Asserts,
 		"forks": s.Forks, "max_decisions_on_a_path": s.MaxDecision, "ssa_steps": s.Steps,
 		"obligations_needing_a_solver_verdict": s.BySolver, "symbolic_inputs_on_a_path_max": s.MaxInputs}
+	if len(s.Probed) > 0 {
+		pr := map[string]int{}
+		for v, n := range s.Probed {
+			pr[strconv.Itoa(v)] = n
+		}
+		h["sizes_or_durations_taken_from_constants_in_the_code_under_test"] = pr
+	}
 	if len(s.Unknown) > 0 {
 		h["inconclusive"] = s.Unknown
 	}
